@@ -5,6 +5,7 @@ import (
 	"go/constant"
 	"go/token"
 	"go/types"
+	"sort"
 	"strings"
 
 	"golang.org/x/tools/go/ssa"
@@ -223,46 +224,368 @@ func dominates(a, b ssa.Instruction) bool {
 // reachAvoiding reports whether some instruction satisfying target is reachable
 // from the point just after start (or from function entry if start is nil)
 // without passing an instruction satisfying barrier. Panic-terminated blocks are
-// followed like any other.
+// followed like any other.  The search is phi-sensitive (see reachCore).
 func reachAvoiding(fn *ssa.Function, start ssa.Instruction, target, barrier func(ssa.Instruction) bool) bool {
 	if len(fn.Blocks) == 0 {
 		return false
 	}
-	visited := map[*ssa.BasicBlock]bool{}
-	var work []*ssa.BasicBlock
-	scan := func(b *ssa.BasicBlock, from int) bool {
-		for i := from; i < len(b.Instrs); i++ {
-			in := b.Instrs[i]
+	if start == nil {
+		return reachCore(fn.Blocks[0], 0, target, barrier)
+	}
+	return reachCore(start.Block(), idxIn(start)+1, target, barrier)
+}
+
+// ---- phi-sensitive reachability ----
+//
+// A search over (block, values of the phis fixed by the way the block was entered).  When a path enters a block
+// through one predecessor, each phi of the block is the value on that edge; a branch that compares such a phi (or a
+// phi of such phis) with nil or with a constant, where the value is known to be nil / non-nil / a constant, has only
+// one feasible successor.  This is what makes `r = f(); if r != nil { return r }` after inlining f — a phi of the
+// values f returned — as exact as the code it came from, and a flag variable as exact as the break it stands for.
+// Only infeasible edges are pruned, so every real path is still searched.
+
+type phiEnv map[*ssa.Phi]ssa.Value
+
+// pathFacts: values known nil / non-nil from the branches taken on the current path
+type pathFacts map[ssa.Value]valClass
+
+var reachFacts pathFacts
+
+type valClass int
+
+const (
+	clsUnknown valClass = iota
+	clsNil
+	clsNonNil
+	clsConst
+)
+
+// neverNilCall is set by the program loader: is the result of this call never nil (errors.New, fmt.Errorf, a module
+// function all of whose results are)?
+var neverNilCall func(v ssa.Value) bool
+
+func classify(v ssa.Value, env phiEnv, depth int) (valClass, ssa.Value) {
+	for i := 0; i < 8; i++ {
+		ph, ok := v.(*ssa.Phi)
+		if !ok {
+			break
+		}
+		nv, ok := env[ph]
+		if !ok {
+			// a phi all of whose edges agree
+			var cls valClass
+			var rep ssa.Value
+			if depth < 3 {
+				for k, e := range ph.Edges {
+					c, r := classify(e, env, depth+1)
+					if c == clsConst {
+						// constants must be equal
+						if k > 0 && (cls != clsConst || !sameConst(rep, r)) {
+							return clsUnknown, v
+						}
+					} else if k > 0 && c != cls {
+						return clsUnknown, v
+					}
+					cls, rep = c, r
+				}
+				if cls == clsNil || cls == clsNonNil || cls == clsConst {
+					return cls, rep
+				}
+			}
+			return clsUnknown, v
+		}
+		v = nv
+	}
+	if c, ok := reachFacts[v]; ok {
+		return c, v
+	}
+	switch x := v.(type) {
+	case *ssa.Const:
+		if x.Value == nil {
+			if _, isBasic := x.Type().Underlying().(*types.Basic); isBasic {
+				return clsUnknown, v
+			}
+			return clsNil, v
+		}
+		return clsConst, v
+	case *ssa.MakeInterface, *ssa.Alloc, *ssa.MakeClosure, *ssa.MakeMap, *ssa.MakeChan, *ssa.MakeSlice, *ssa.FieldAddr, *ssa.IndexAddr, *ssa.Function, *ssa.Global:
+		return clsNonNil, v
+	case *ssa.ChangeInterface:
+		return classify(x.X, env, depth)
+	case *ssa.Call, *ssa.Extract:
+		if neverNilCall != nil && neverNilCall(v) {
+			return clsNonNil, v
+		}
+	}
+	return clsUnknown, v
+}
+
+func sameConst(a, b ssa.Value) bool {
+	ca, ok1 := a.(*ssa.Const)
+	cb, ok2 := b.(*ssa.Const)
+	if !ok1 || !ok2 || ca.Value == nil || cb.Value == nil {
+		return false
+	}
+	return constant.Compare(ca.Value, token.EQL, cb.Value)
+}
+
+// evalCond decides a branch condition under env: 1 true, 0 false, -1 unknown.
+func evalCond(c ssa.Value, env phiEnv, depth int) int {
+	if depth > 4 {
+		return -1
+	}
+	switch x := c.(type) {
+	case *ssa.Const:
+		if x.Value != nil && x.Value.Kind() == constant.Bool {
+			if constant.BoolVal(x.Value) {
+				return 1
+			}
+			return 0
+		}
+	case *ssa.Phi:
+		cls, v := classify(x, env, 0)
+		if cls == clsConst {
+			return evalCond(v, env, depth+1)
+		}
+	case *ssa.UnOp:
+		if x.Op == token.NOT {
+			if r := evalCond(x.X, env, depth+1); r >= 0 {
+				return 1 - r
+			}
+		}
+	case *ssa.BinOp:
+		if x.Op != token.EQL && x.Op != token.NEQ {
+			return -1
+		}
+		cx, vx := classify(x.X, env, 0)
+		cy, vy := classify(x.Y, env, 0)
+		eq := -1
+		switch {
+		case cx == clsNil && cy == clsNil:
+			eq = 1
+		case (cx == clsNil && cy == clsNonNil) || (cx == clsNonNil && cy == clsNil):
+			eq = 0
+		case cx == clsConst && cy == clsConst:
+			ca, cb := vx.(*ssa.Const), vy.(*ssa.Const)
+			if ca.Value.Kind() == cb.Value.Kind() || (ca.Value.Kind() != constant.String && cb.Value.Kind() != constant.String && ca.Value.Kind() != constant.Bool && cb.Value.Kind() != constant.Bool) {
+				if constant.Compare(ca.Value, token.EQL, cb.Value) {
+					eq = 1
+				} else {
+					eq = 0
+				}
+			}
+		}
+		if eq < 0 {
+			return -1
+		}
+		if x.Op == token.NEQ {
+			return 1 - eq
+		}
+		return eq
+	}
+	return -1
+}
+
+func envKey(env phiEnv) string {
+	if len(env) == 0 {
+		return ""
+	}
+	var parts []string
+	for ph, v := range env {
+		cls, r := classify(v, nil, 3)
+		switch cls {
+		case clsNil:
+			parts = append(parts, fmt.Sprintf("%p=nil", ph))
+		case clsNonNil:
+			parts = append(parts, fmt.Sprintf("%p=nn", ph))
+		case clsConst:
+			parts = append(parts, fmt.Sprintf("%p=%s", ph, r.(*ssa.Const).Value.ExactString()))
+		}
+	}
+	sort.Strings(parts)
+	return strings.Join(parts, ",")
+}
+
+func factsKey(f pathFacts) string {
+	if len(f) == 0 {
+		return ""
+	}
+	var parts []string
+	for v, c := range f {
+		parts = append(parts, fmt.Sprintf("%p=%d", v, c))
+	}
+	sort.Strings(parts)
+	return strings.Join(parts, ",")
+}
+
+// reachEnv is the phi environment of the path on which target/barrier are being evaluated (for predicates that want to
+// classify a value exactly, e.g. "this return may deliver nil").
+var reachEnv phiEnv
+
+// mayBeNilHere: can v be nil on the path being searched?
+func mayBeNilHere(v ssa.Value) bool {
+	cls, _ := classify(v, reachEnv, 0)
+	return cls != clsNonNil && cls != clsConst
+}
+
+// onlyViaEdge: every path from the entry of fn to an instruction satisfying target takes the edge from -> from.Succs[succ]
+// (phi-sensitive).  This is the path form of "target is dominated by that edge", and unlike dominance it survives a
+// join between the edge and the target (code inlined from a helper returns through a join).
+func onlyViaEdge(fn *ssa.Function, from *ssa.BasicBlock, succ int, target func(ssa.Instruction) bool) bool {
+	if len(fn.Blocks) == 0 || succ >= len(from.Succs) {
+		return false
+	}
+	to := from.Succs[succ]
+	return !reachCoreX(fn.Blocks[0], 0, target, nil, func(a, b *ssa.BasicBlock, idx int) bool { return a == from && b == to && idx == succ })
+}
+
+// reachCore searches from instruction index `from` of block b.
+func reachCore(b *ssa.BasicBlock, from int, target, barrier func(ssa.Instruction) bool) bool {
+	return reachCoreX(b, from, target, barrier, nil)
+}
+
+func reachCoreX(b *ssa.BasicBlock, from int, target, barrier func(ssa.Instruction) bool, blocked func(a, b *ssa.BasicBlock, succIdx int) bool) bool {
+	defer func(old phiEnv) { reachEnv = old }(reachEnv)
+	type state struct {
+		b     *ssa.BasicBlock
+		from  int
+		env   phiEnv
+		facts pathFacts
+	}
+	defer func(old pathFacts) { reachFacts = old }(reachFacts)
+	visited := map[string]bool{}
+	work := []state{{b, from, nil, nil}}
+	steps := 0
+	for len(work) > 0 {
+		st := work[len(work)-1]
+		work = work[:len(work)-1]
+		steps++
+		if steps > 20000 {
+			return true // give up precisely: assume reachable
+		}
+		stop := false
+		reachEnv = st.env
+		reachFacts = st.facts
+		for i := st.from; i < len(st.b.Instrs); i++ {
+			in := st.b.Instrs[i]
 			if barrier != nil && barrier(in) {
-				return false
+				stop = true
+				break
 			}
 			if target(in) {
 				return true
 			}
 		}
-		for _, s := range b.Succs {
-			if !visited[s] {
-				visited[s] = true
-				work = append(work, s)
+		if stop {
+			continue
+		}
+		allow := []bool{true, true}
+		if len(st.b.Succs) == 2 {
+			if iff, ok := st.b.Instrs[len(st.b.Instrs)-1].(*ssa.If); ok {
+				switch evalCond(iff.Cond, st.env, 0) {
+				case 1:
+					allow[1] = false
+				case 0:
+					allow[0] = false
+				}
 			}
 		}
-		return false
-	}
-	if start == nil {
-		visited[fn.Blocks[0]] = true
-		if scan(fn.Blocks[0], 0) {
-			return true
-		}
-	} else {
-		if scan(start.Block(), idxIn(start)+1) {
-			return true
-		}
-	}
-	for len(work) > 0 {
-		b := work[len(work)-1]
-		work = work[:len(work)-1]
-		if scan(b, 0) {
-			return true
+		for si, s := range st.b.Succs {
+			if si < 2 && !allow[si] {
+				continue
+			}
+			if blocked != nil && blocked(st.b, s, si) {
+				continue
+			}
+			// the phis of s take the values on the edge from st.b
+			env := st.env
+			idx := -1
+			for k, p := range s.Preds {
+				if p == st.b {
+					idx = k
+				}
+			}
+			copied := false
+			for _, in := range s.Instrs {
+				ph, ok := in.(*ssa.Phi)
+				if !ok {
+					break
+				}
+				if idx < 0 || idx >= len(ph.Edges) {
+					continue
+				}
+				if !copied {
+					ne := phiEnv{}
+					for k, v := range env {
+						ne[k] = v
+					}
+					env, copied = ne, true
+				}
+				// resolve through the current env so that chains of phis stay exact
+				v := ph.Edges[idx]
+				if p2, ok := v.(*ssa.Phi); ok {
+					if r, ok := st.env[p2]; ok {
+						v = r
+					}
+				}
+				env[ph] = v
+			}
+			// what the branch taken says about the value it tested
+			facts := st.facts
+			if len(st.b.Succs) == 2 && si < 2 {
+				if iff, ok := st.b.Instrs[len(st.b.Instrs)-1].(*ssa.If); ok {
+					if bo, ok := iff.Cond.(*ssa.BinOp); ok && (bo.Op == token.EQL || bo.Op == token.NEQ) {
+						x, y := bo.X, bo.Y
+						if isNilConst(x) {
+							x, y = y, x
+						}
+						if isNilConst(y) {
+							isNil := (bo.Op == token.EQL) == (si == 0)
+							nf := pathFacts{}
+							for k, v := range facts {
+								nf[k] = v
+							}
+							cls := clsNonNil
+							if isNil {
+								cls = clsNil
+							}
+							// the value itself, and the phi operand it stands for on this path
+							nf[x] = cls
+							if ph, ok := x.(*ssa.Phi); ok {
+								if r, ok := st.env[ph]; ok {
+									nf[r] = cls
+								}
+							}
+							facts = nf
+						}
+					}
+				}
+			}
+			// facts about values that the block being entered defines anew are stale
+			if len(facts) > 0 {
+				var drop []ssa.Value
+				for v := range facts {
+					if in, ok := v.(ssa.Instruction); ok && in.Block() == s {
+						drop = append(drop, v)
+					}
+				}
+				if len(drop) > 0 {
+					nf := pathFacts{}
+					for k, v := range facts {
+						nf[k] = v
+					}
+					for _, v := range drop {
+						delete(nf, v)
+					}
+					facts = nf
+				}
+			}
+			key := fmt.Sprintf("%d|%s|%s", s.Index, envKey(env), factsKey(facts))
+			if visited[key] {
+				continue
+			}
+			visited[key] = true
+			work = append(work, state{s, 0, env, facts})
 		}
 	}
 	return false
@@ -621,32 +944,7 @@ func fnName(fn *ssa.Function) string {
 
 // reachFromBlock is reachAvoiding starting at the first instruction of block b.
 func reachFromBlock(b *ssa.BasicBlock, target, barrier func(ssa.Instruction) bool) bool {
-	visited := map[*ssa.BasicBlock]bool{b: true}
-	work := []*ssa.BasicBlock{b}
-	for len(work) > 0 {
-		x := work[len(work)-1]
-		work = work[:len(work)-1]
-		stop := false
-		for _, in := range x.Instrs {
-			if barrier != nil && barrier(in) {
-				stop = true
-				break
-			}
-			if target(in) {
-				return true
-			}
-		}
-		if stop {
-			continue
-		}
-		for _, s := range x.Succs {
-			if !visited[s] {
-				visited[s] = true
-				work = append(work, s)
-			}
-		}
-	}
-	return false
+	return reachCore(b, 0, target, barrier)
 }
 
 // staticCallees lists module functions called statically (call/go/defer) from fn,
